@@ -250,7 +250,7 @@ func vfC13Run(v *vfT, c vfC13Case) {
 		if pair.WaitConnected(vfC13Watchdog) {
 			v.Label("connected" + tag)
 		} else {
-			v.Label("inconclusive:not-connected" + tag)
+			v.Label(fmt.Sprintf("inconclusive:not-connected/%s/offer=%s/role=%s%s", liteClass, c.OfferSetup, c.AnsRole, tag))
 			return
 		}
 	}
